@@ -90,8 +90,10 @@ class EPMeanField(FactorGraph):
 
             mean_field_subset = mean_field.subset(plates_index=plates_index)
             factor_mean_field_subset[subset_factor] = mean_field_subset
-            mean_field_size = VariableData.prod(plate_sizes)
-            subset_size = VariableData.prod(VariableData.plate_sizes(mean_field_subset))
+            # a factor without plated variables has size 1 and is not rescaled
+            subset_sizes = VariableData.plate_sizes(mean_field_subset)
+            mean_field_size = VariableData.prod(plate_sizes) if plate_sizes else 1
+            subset_size = VariableData.prod(subset_sizes) if subset_sizes else 1
             scale_factor = subset_size / mean_field_size
             factor_mean_field_rescale[subset_factor] = VariableData({
                 v: scale_factor * mean_field[v].size / message.size
@@ -514,7 +516,8 @@ class EPMeanFieldSubset(EPMeanField):
         factor_dist = dict(factor_dist)
         for v, scale in self._factor_rescale[factor].items():
             if scale < 1:
-                cavity_dist[v] = cavity_dist[v] * factor_dist[v] ** (1 - scale)
+                # no other factor may hold v: the cavity is then only the held-back part
+                cavity_dist[v] = factor_dist[v] ** (1 - scale) * cavity_dist.get(v, 1.0)
                 factor_dist[v] = factor_dist[v] ** scale
 
         return FactorApproximation(
